@@ -116,6 +116,9 @@ def _delete_highest_and_add(h, rnd):
     h.dev(cur)
 
 
+DEVFN = {"delete_highest_and_add": _delete_highest_and_add}
+
+
 def follow_c02_lockread(h):
     """after a fault-free run: the developer deletes the highest-numbered statement and adds others, and the NEXT run cannot
     examine / open / read the lock file (one failure each time)"""
@@ -159,6 +162,8 @@ def exec_job(job):
         for st in job["steps"]:
             if st[0] == "dev":
                 h.dev(st[1])
+            elif st[0] == "devfn":
+                DEVFN[st[1]](h, st[2] if len(st) > 2 else 0)
             elif st[0] == "lock":
                 h.dev_set_lock(st[1])
             elif st[0] == "model":
@@ -367,6 +372,8 @@ def _ops_of_last_run(binary, scen, pre, mode, label):
         for st in pre:
             if st[0] == "dev":
                 h.dev(st[1])
+            elif st[0] == "devfn":
+                DEVFN[st[1]](h, st[2] if len(st) > 2 else 0)
             elif st[0] == "lock":
                 h.dev_set_lock(st[1])
             else:
